@@ -141,13 +141,33 @@ func c03Endings() []string {
 	return out
 }
 
+// c03Boundaries: programs whose consumed text ends in a multi-byte character, one for every possible final byte 0x80..0xBF
+// (the split between Matched and RestInput must fall on a character boundary), as an identifier, in a string and in a comment
+func c03Boundaries() []string {
+	var out []string
+	for i := 0; i < 64; i++ {
+		ch := string(rune(0x4E00 + i)) // the last byte of its UTF-8 form is 0x80+i
+		name := "耐" + ch
+		out = append(out, name+" = 3; "+name, "1d1 + "+name, "x = '"+ch+"'", "1; // 注"+ch, "`a{1}"+ch+"`")
+	}
+	return out
+}
+
 func init() {
 	subcmds["c03-endings"] = func(args []string) int {
 		fs := newFlags("c03-endings")
 		out := fs.String("out", "", "inputs ndjson {src}")
+		boundaries := fs.Bool("boundaries", false, "the multi-byte boundary family instead")
 		fs.Parse(args)
 		w := newNDWriter(*out)
 		defer w.Close()
+		if *boundaries {
+			for _, s := range c03Boundaries() {
+				w.Write(map[string]any{"src": s})
+			}
+			emitSummary(map[string]any{"inputs": w.n})
+			return 0
+		}
 		for _, s := range c03Endings() {
 			w.Write(map[string]any{"src": s})
 		}
